@@ -92,6 +92,7 @@ class RecHandler(EventHandler):
     def __init__(self, world):
         self.w = world
         self.raise_in = set()  # event names in which to raise once
+        self.raise_always = set()  # event names in which to raise every time
 
     def _ev(self, name, client=None, *args):
         w = self.w
@@ -104,6 +105,8 @@ class RecHandler(EventHandler):
         if name in self.raise_in:
             self.raise_in.discard(name)
             raise RuntimeError("handler raises in %s (injected)" % name)
+        if name in self.raise_always:
+            raise RuntimeError("handler raises in every %s (injected)" % name)
 
     def starting(self):
         self._ev("starting")
@@ -171,6 +174,7 @@ class World(object):
         self.net = []
         self.all_sent = []
         self.blackout = {}  # direction ('c2s' / 's2c') -> tick until which datagrams are lost
+        self.blackhole = {}  # direction -> (tick until which, size above which) datagrams are lost
         self.handler_log = []
         self.handler_hooks = {}
         self.callback_log = []
@@ -332,6 +336,10 @@ class World(object):
         if self.blackout.get(direction, -1) > self.tickno:
             d.note = "lost(blackout)"
             return
+        hole = self.blackhole.get(direction)
+        if hole is not None and hole[0] > self.tickno and len(data) > hole[1]:
+            d.note = "lost(size black hole)"
+            return
         if self.fates and (self.fate_filter is None or self.fate_filter(self, d)):
             opts = [("deliver #%d" % d.id, 0)] + [("%s #%d" % (f, d.id), 1) for f in self.fates]
             c = self.chooser.choose("fate", opts, key=((lambda: self.canon() + (d.data, d.dst if isinstance(d.dst, str) else "c")) if self.hash_states else None))
@@ -447,6 +455,13 @@ class World(object):
             for m in self.monitors:
                 m.on_callback(self, end, tag, bool(success))
         return cb
+
+    def start_blackhole(self, direction, ticks, larger_than):
+        """selective loss: for ``ticks`` ticks every datagram longer than ``larger_than`` bytes is lost in that direction
+        (an MTU black hole); smaller ones - keep-alives, acks, small messages - pass"""
+        self.fault_free = False
+        for d in (["c2s", "s2c"] if direction == "both" else [direction]):
+            self.blackhole[d] = (self.tickno + ticks, larger_than)
 
     def start_blackout(self, direction, ticks):
         self.fault_free = False
